@@ -40,6 +40,9 @@ CHECKS = {
  "C11": dict(engine="grid", design="5 C11", technique="TLA+ transcription of _TabulationCutoff._init_cutoff (Grid.tla) checked by TLC against the declarative decision table for all 216 presence/sign classes; decision table and a decimal commensurate lattice emitted by TLC replayed on ConfigParser, Configuration.read and written tables for both grids",
    text="ImplAgrees (transcription = statement) for every class of (nr, dr, cutoff); the replay runs each class and ~2.5k (quick) / ~70k (thorough) decimal (step, k) pairs typed as decimal strings through the real parser for both grids, and reads row count, spacing and last row back from LAMMPS, setfl and Excel tables.",
    note="The unrepaired-code model (Python truthiness) is kept as Grid_code.cfg and must violate ImplAgrees (anti-vacuity). Two genuine defects repaired (F01, F19)."),
+ "C12": dict(engine="session", design="5 C12", technique="TLA+ model of processes with hash seeds and build/evaluate/write histories (Session.tla: output content is a function of the model; SetOrder and Timestamps deviations) checked by TLC, histories emitted; references from fresh interpreters under 4-8 PYTHONHASHSEED values; every emitted history replayed in one process against the references",
+   text="ContentIsFunctionOfModel for every history of <=4 operations over 3 models and 4 seeds; replay: 4 models (under-specified EAM and Finnis-Sinclair with zero-filled species, custom forms sharing sub-forms and recursive forms, two files re-using form names, [Species] overrides of a built-in element, splines, table forms) x 11 model/target outputs byte-compared across hash seeds, and every history (build, write, shuffled evaluation of all potentials incl. points exactly on exclusive range boundaries) compared with the fresh-process bytes and energies. Purity of formula evaluation from arbitrary symbol tables: FormEval.tla (C09).",
+   note="Known finding F03: Excel containers embed the time of writing (cells compared instead). Defect F02 repaired."),
  "C13": dict(engine="inidoc", design="5 C13", technique="TLA+ model of filtered views over one parsed file (Views.tla: Create/Read histories, ReadIsFilter invariant, SharedSlot deviation) checked by TLC; every (file, view) case replayed through potable --include/--exclude-species and FilteredConfigParser against the hand-deleted file rendered from the spec's DeleteMentioning; all create/read histories of <=3 events replayed on real views",
    text="ReadIsFilter and SurvivorsInOrder for every history of <=3 events over 2 views x 32 filters x 2 files; the replay compares outputs on 7 (EAM file) / 3 (Finnis-Sinclair file) targets with those of the file from which the unwanted entries were deleted, for all 64 (file, view) pairs incl. empty sets and unknown labels, via CLI and API, and checks every read in every history against the TLC-computed filtered list.",
    note="The hand-deleted file keeps its section headers. ADP dipole/quadrupole sections are not named by the statement. Defects F04, F05 repaired."),
@@ -102,6 +105,7 @@ ENGINES = {
  "layout": "TLC on spec/Layout.tla (writer step machines x consumer models x fault model) + replay of every emitted case through the real code",
  "multirange": "TLC on spec/MultiRange.tla + replay of every listing on the real multi-range classes",
  "forms": "TLC on spec/Builtin.tla + replay through the four access routes in a fresh process",
+ "session": "TLC on spec/Session.tla + fresh-process references under several hash seeds + in-process histories",
  "splines": "TLC on spec/Spline.tla + replay on the spline classes, modifier and as.buck4",
  "tables": "TLC on spec/TableForm.tla + replay on TableReader, plot helpers and [Table-Form]",
  "algebra": "TLC on spec/PotExpr.tla and spec/FormEval.tla (+ Builtin.tla for leaf derivatives) + replay of every definition / program on the real registry, builders and combinators",
